@@ -2,6 +2,7 @@
 from __future__ import annotations
 
 import ast
+import os
 
 import z3
 
@@ -69,7 +70,33 @@ def hkey(v):
         if isinstance(k, int) or z3.is_int_value(k):
             return ("iso", k if isinstance(k, int) else k.as_long())
         raise Unsupported(f"symbolic ISO string used as concrete dict key")
+    if isinstance(v, FmtStr) and _CURRENT.get("I") is not None:
+        forced = force_str(_CURRENT["I"], _CURRENT["ctx"], v)
+        if isinstance(forced, str):
+            return ("c", forced)
     raise Unsupported(f"unhashable / unsupported dict key {v!r}")
+
+
+_CURRENT = {}
+
+
+def force_str(I, ctx, v):
+    """evaluate the lazy parts of a format string (user-defined __str__ is run now because the text is needed)"""
+    if not isinstance(v, FmtStr):
+        return v
+    out = []
+    for p in v.parts:
+        if isinstance(p, LazyStr):
+            p = I.to_str(ctx, p.val, p.spec, p.conv)
+            if isinstance(p, FmtStr):
+                p = force_str(I, ctx, p)
+        if isinstance(p, FmtStr):
+            out.extend(p.parts)
+        else:
+            out.append(p)
+    if all(isinstance(p, str) for p in out):
+        return "".join(out)
+    return FmtStr(out)
 
 
 class Interp:
@@ -88,6 +115,7 @@ class Interp:
         self.always_inline = set() # tiny accessors verified by inlining everywhere (DESIGN 2.4 a)
         self.hooks = {}            # qualified name -> python callable replacing the function (ghost models)
         self.max_depth = 60
+        self.strict_inline = os.environ.get("PYVC_STRICT_INLINE") == "1"
         from . import builtins_ as B
         B.install(self)
 
@@ -276,6 +304,7 @@ class Interp:
             self.exec_stmt(ctx, env, st)
 
     def exec_stmt(self, ctx, env, st):
+        _CURRENT["I"], _CURRENT["ctx"] = self, ctx
         ctx.where = f"{env.module.name}:{getattr(st, 'lineno', 0)}"
         meth = getattr(self, "s_" + st.__class__.__name__, None)
         if meth is None:
@@ -1249,11 +1278,19 @@ class Interp:
             return self.hooks[q](self, ctx, f, args, kwargs)
         if q in self.contracts and (q != self.under_test or ctx.depth > 0) and q not in self.inline and not self._inline_match_local(q):
             c = self.contracts[q]
-            return c.apply(self, ctx, f, args, kwargs)
+            from .contract import Contract as _C
+            if type(c).outcomes is not _C.outcomes or type(c).apply is not _C.apply:
+                return c.apply(self, ctx, f, args, kwargs)
+            # a contract that only states what is verified (no call-site summary): the callee is inlined
+            ctx.inlined.add(q + " (verification-only contract: inlined)")
+            return self.inline_call(ctx, f, args, kwargs)
         if ctx.depth > 0 and not (self.inline_all or q in self.inline or q in self.always_inline or self._inline_match(q)
                                   or self._nested_of_allowed(f)):
-            raise PyvcError(f"repo callee without contract (not declared inline): {q} at {ctx.where}")
-        if ctx.depth > 0:
+            if self.strict_inline:
+                raise PyvcError(f"repo callee without contract (not declared inline): {q} at {ctx.where}")
+            # a callee that has no contract is verified by inlining its real body (exact, listed in the evidence)
+            ctx.inlined.add(q + " (no contract: inlined)")
+        elif ctx.depth > 0:
             ctx.inlined.add(q)
         return self.inline_call(ctx, f, args, kwargs)
 
